@@ -484,6 +484,9 @@ def run(run):
     phases['tlc_instance'] = round(time.time() - t0, 1)
     blocks = pool.dump_blocks(r.dump, skip_substr='"pending"')
     byf, bypath = replay_dump(run, blocks, cells_every=4 if quick else 1)
+    # the same calls in four orders, each order in ONE fresh process (state left behind by earlier calls)
+    from harness import calls as _calls
+    _calls.replay_orders(run, blocks, Replayer(paths=('direct', 'wrapped')), key=lambda b: len(b), sample=20000)
     phases['replay'] = round(time.time() - t0, 1)
     os.remove(r.dump)
     run.notes['cases_by_function'] = byf
